@@ -38,17 +38,67 @@ var c09pEffective = []string{"u1@example.org", "u2@example.org", "u3@example.org
 	"alias1@example.org", "alias2@example.org", "plain@example.org", "list@example.org"}
 
 type c09pCollector struct {
-	mu   sync.Mutex
-	keys []string
+	mu     sync.Mutex
+	keys   []string
+	failed map[string]int
 }
 
 func (c *c09pCollector) SetStatus(r string, err error) {
 	c.mu.Lock()
 	c.keys = append(c.keys, r)
+	if err != nil {
+		if c.failed == nil {
+			c.failed = map[string]int{}
+		}
+		c.failed[r]++
+	}
 	c.mu.Unlock()
 }
 
+// c09pTwoBlocks: alias1@ is rewritten to plain@ inside its own destination block (target t1), the client names
+// plain@ as well and that one is handled by the default block (target t3). t1 fails plain@; t3 delivers it.
+func c09pTwoBlocks() (vs []ev.V) {
+	vReset()
+	nodes := []config.Node{
+		{Name: "destination", Args: []string{"alias1@example.org"}, Children: []config.Node{
+			{Name: "modify", Children: []config.Node{{Name: "replace_rcpt", Args: []string{"verif_map", "alias1@example.org", "plain@example.org"}}}},
+			{Name: "deliver_to", Args: []string{"verif_ptgt", "t1"}}}},
+		{Name: "default_destination", Children: []config.Node{{Name: "deliver_to", Args: []string{"verif_ptgt", "t3"}}}},
+	}
+	p, err := New(nil, nodes)
+	if err != nil {
+		return []ev.V{ev.Vf("harness:load", "%v", err)}
+	}
+	p.Log = log.Logger{Out: log.NopOutput{}}
+	vRec.fail["t1/status/plain@example.org"] = fmt.Errorf("scripted failure of t1 for plain@example.org")
+	ctx := context.Background()
+	d, err := p.Start(ctx, &module.MsgMetadata{ID: "c09p2", DontTraceSender: true}, "sender@example.com")
+	if err != nil {
+		return []ev.V{ev.Vf("harness:start", "%v", err)}
+	}
+	for _, r := range []string{"alias1@example.org", "plain@example.org"} {
+		if err := d.AddRcpt(ctx, r, smtp.RcptOptions{}); err != nil {
+			return []ev.V{ev.Vf("harness:rcpt", "%s: %v", r, err)}
+		}
+	}
+	col := &c09pCollector{}
+	hdr := textproto.Header{}
+	hdr.Add("Subject", "x")
+	d.(module.PartialDelivery).BodyNonAtomic(ctx, col, hdr, buffer.MemoryBuffer{Slice: []byte("x\r\n")})
+	d.Commit(ctx)
+	if col.failed["alias1@example.org"] == 0 {
+		vs = append(vs, ev.Vf("status:pipeline-failure-not-reported", "target t1 failed plain@example.org, which stands for alias1@example.org there, but no failure names alias1@example.org (reported: %v, failed: %v)", col.keys, col.failed))
+	}
+	if col.failed["plain@example.org"] > 0 {
+		vs = append(vs, ev.Vf("status:pipeline-result-of-another-target", "plain@example.org was named by the client and handled by target t3 alone, which delivered it; the failure of target t1 (which holds plain@ for alias1@) was reported for it as well (reported: %v, failed: %v)", col.keys, col.failed))
+	}
+	return vs
+}
+
 func c09pRun(sc c09pScenario) (vs []ev.V) {
+	if sc.Level == "two-blocks" {
+		return c09pTwoBlocks()
+	}
 	vReset()
 	var args []string
 	var keys []int
@@ -209,7 +259,10 @@ func c09pRun(sc c09pScenario) (vs []ev.V) {
 func TestVerifC09Pipeline(t *testing.T) {
 	r := ev.Get("C09")
 	ev.Run(t, r, ev.Spec[c09pScenario]{Name: "pipeline", Journal: true, N: r.N, Gen: func(t *rapid.T) c09pScenario {
-		sc := c09pScenario{Rewrites: map[int][]int{}, Level: rapid.SampledFrom([]string{"global", "source", "destination", "both", "reroute", "reroute-in-destination"}).Draw(t, "level")}
+		sc := c09pScenario{Rewrites: map[int][]int{}, Level: rapid.SampledFrom([]string{"global", "source", "destination", "both", "reroute", "reroute-in-destination", "two-blocks"}).Draw(t, "level")}
+		if sc.Level == "two-blocks" {
+			return sc
+		}
 		next := 0
 		usedClient := map[int]bool{}
 		// shared: two client addresses may have the same image (two aliases of one mailbox), otherwise images stay disjoint
